@@ -93,6 +93,12 @@ func c15Gen(tier string, seed int64) []fw.Case {
 		dd := d
 		cases = append(cases, fw.Case{Name: fmt.Sprintf("slow-pong/%s/%s", d.Role, d.Reader), Desc: dd, Run: func(r *fw.R) { c15SlowPong(r, dd) }})
 	}
+	// keep-alive Pings more than 5 s apart inside ONE reading call (no data frame in between)
+	for i := 0; i < tierPick(tier, 8, 40); i++ {
+		d := c15Desc{Kind: "received-spaced", Seed: rng.U64(), Role: bothRoles[i%2], Params: allParams[rng.Intn(len(allParams))], Reader: []string{"CloseRead", "Read", "Reader-mid-message"}[i/2%3]}
+		dd := d
+		cases = append(cases, fw.Case{Name: fmt.Sprintf("received-spaced/%s/%s", d.Role, d.Reader), Desc: dd, Run: func(r *fw.R) { c15ReceivedSpaced(r, dd) }})
+	}
 	for i := 0; i < tierPick(tier, 8, 60); i++ {
 		d := c15Desc{Kind: "pong-at-expiry", Seed: rng.U64(), Role: bothRoles[i%2], Params: allParams[rng.Intn(len(allParams))], Reader: []string{"CloseRead", "Read"}[i/2%2]}
 		dd := d
@@ -829,6 +835,68 @@ func c15AfterLocalClose(r *fw.R, d c15Desc) {
 }
 
 // c15SlowPong: the Pong arrives after 5.5 s, well inside the Ping's own context: Ping must wait for it.
+// c15ReceivedSpaced: the peer sends a Ping (and an unsolicited Pong), nothing for 5.6 s, a Ping, nothing for 1 s,
+// a Ping - all inside one reading call of the library (CloseRead, one Read that waits for a message, or a
+// message reader waiting for the next fragment). Every Ping is answered.
+func c15ReceivedSpaced(r *fw.R, d c15Desc) {
+	r.SetSample(d)
+	c, _, peerEnd, err := libConn(d.Role, d.Params, 0, xport.Plan{}, xport.Plan{})
+	if err != nil {
+		r.Violate("C15/attach-failed", err.Error(), "")
+		return
+	}
+	defer c.CloseNow()
+	defer peerEnd.Close()
+	peer := newRawPeer(peerEnd, d.Role, d.Params, d.Seed)
+	peer.Start()
+	ctx, cancel := context.WithTimeout(context.Background(), 60*time.Second)
+	defer cancel()
+	readerDone := make(chan struct{})
+	switch d.Reader {
+	case "CloseRead":
+		c.CloseRead(ctx)
+		close(readerDone)
+	case "Read":
+		go func() { defer close(readerDone); c.Read(ctx) }()
+	default:
+		peer.Send(wire.Data(wire.OpBinary, false, []byte("first fragment")))
+		go func() {
+			defer close(readerDone)
+			if _, rd, err := c.Reader(ctx); err == nil {
+				io.ReadAll(rd)
+			}
+		}()
+	}
+	what := fmt.Sprintf("%s %s reader=%s spaced pings", d.Role, paramsKey(d.Params), d.Reader)
+	pings := [][]byte{[]byte("keep-alive 1"), []byte("keep-alive 2, 5.6 s later"), []byte("keep-alive 3")}
+	for i, pl := range pings {
+		switch i {
+		case 0:
+			peer.Send(wire.Pong([]byte("unsolicited")))
+		case 1:
+			time.Sleep(5600 * time.Millisecond)
+		case 2:
+			time.Sleep(time.Second)
+		}
+		peer.Send(wire.Ping(pl))
+		if !peer.Wait(10*time.Second, func() bool { return len(peer.Conf.Pongs) > i }) {
+			r.Violate("C15/received-ping-not-answered/spaced", fmt.Sprintf("%s: Ping %d (%q) was not answered within 10 s (transport closed by the library: %v)", what, i+1, pl, peerEnd.PeerClosed()), "")
+			return
+		}
+		var got []byte
+		peer.Locked(func() { got = peer.Conf.Pongs[i] })
+		if !bytes.Equal(got, pl) {
+			r.Violate("C15/pong-payload-differs", fmt.Sprintf("%s: Pong %d carries %q, the Ping carried %q", what, i+1, got, pl), "")
+			return
+		}
+	}
+	r.Count("received_pings_answered", int64(len(pings)))
+	r.Count("pings_received_more_than_5s_into_a_reading_call", 2)
+	r.Key("received-spaced/%s/%s/%s", d.Role, d.Reader, paramsKey(d.Params))
+	c.CloseNow()
+	<-readerDone
+}
+
 func c15SlowPong(r *fw.R, d c15Desc) {
 	r.SetSample(d)
 	c, _, peerEnd, err := libConn(d.Role, d.Params, 0, xport.Plan{}, xport.Plan{})
